@@ -129,12 +129,10 @@ fn run(spec: &WorldSpec, ops: &[COp], resolutions: &[bool], ctx: &mut Ctx) -> Re
 				// sibling of the known reload panic: a blocked update of one channel is released by another channel's
 				// completion before the channel's own in-flight updates were replayed
 				Err(Failure::new("panic", format!("panic at {}: {}", loc, msg)).with_key("panic/monitor-update-out-of-order-after-reload"))
-			} else if msg.contains("Latest counterparty commitment secret was invalid") && netsim::ext_c10::blocked_raa_update_lost_on_reload(&sim) {
+			} else if let Some(key) = netsim::ext_c10::classify_id_reuse_panic(&sim, &msg) {
 				// listed root cause (see the C10 entry): a blocked monitor update in the manager snapshot shares its
 				// id with a later unblocked update and is dropped on a stale reload
-				Err(Failure::new("panic", format!("panic at {}: {}", loc, msg)).with_key("panic/commitment-secret-rejected/blocked-raa-update-dropped-on-stale-reload"))
-			} else if msg.contains("Attempted to apply post-force-close ChannelMonitorUpdate") && netsim::ext_c10::blocked_raa_update_lost_on_reload(&sim) {
-				Err(Failure::new("panic", format!("panic at {}: {}", loc, msg)).with_key("panic/post-force-close-update/blocked-update-id-reused-after-stale-reload"))
+				Err(Failure::new("panic", format!("panic at {}: {}", loc, msg)).with_key(key))
 			} else if msg.contains("self.pending_claim_requests.get(&claim_id).is_none()") {
 				// OnchainTxHandler registered two claims with one id (debug assertion)
 				Err(Failure::new("panic", format!("panic at {}: {}", loc, msg)).with_key("panic/onchaintx-duplicate-claim-id"))
